@@ -236,6 +236,19 @@ Section Dict.
         | _, _ => true
         end).
 
+  (** the source guards of _from_dict_value, whatever the validator: a type that travels as
+      text (Date, ByteArray) wants text or bytes; a number (the Decimal family: Integer,
+      Double) wants an int, a float, text or bytes — bool is an int *)
+  Definition guard_pre (p : dprim) (d : jv) : bool :=
+    match d with
+    | JNull => true
+    | _ => match p with
+           | DDate | DBytes => is_strlike d
+           | DInt _ _ | DDouble => match d with JList _ | JMap _ => false | _ => true end
+           | _ => true
+           end
+    end.
+
   (** text that arrived as a byte string is decoded before it is validated and parsed
       (not for ByteArray members); UnicodeError -> ValidationError *)
   Definition norm_bytes (p : dprim) (d : jv) : out jv :=
@@ -343,6 +356,7 @@ Section Dict.
   (** _from_dict_value for a leaf class *)
   Definition leaf_in (p : dprim) (nullable : bool) (d : jv) : out nv :=
     if d_soft C && negb (validate_pre p nullable d) then VFault
+    else if negb (guard_pre p d) then VFault
     else
       do d' <- norm_bytes p d;
       do v <- leaf_raw p d';
@@ -391,7 +405,7 @@ Section Dict.
             | Some f =>
                 if dmulti f then
                   match iter_doc v with
-                  | None => Crash TypeError                           (* for a in v *)
+                  | None => VFault                                    (* not isinstance(v, Iterable) *)
                   | Some xs =>
                       do vs <- mapMd (rec (df_ty f) (df_nullable f)) xs;
                       let old := match dgetattr st name with NList l => l | _ => [] end in
